@@ -721,7 +721,12 @@ func runC14() {
 	phase := 3*ttl + 2*iv
 	// time allowed for one announcement to cross the mesh: per hop link latency
 	// plus slow or starved goroutines (each freeze lasts up to 2 s)
-	margin := 10*time.Second + time.Duration(len(m.Nodes)-1)*4*time.Second
+	// margin: time a receiver gets to process an announcement once it has been
+	// written to it (link latency, starved goroutines); reachMargin: time the
+	// mesh gets to pass an announcement on to every agent (per hop: a write that
+	// waits for a slow reader, forwarders that are starved)
+	margin := 15 * time.Second
+	reachMargin := time.Minute + time.Duration(len(m.Nodes)-1)*20*time.Second
 	attributed := map[string]bool{} // origin|route for which some announcement was compared
 	lateResets := simrt.Choose(3, "late-resets")
 	// connect storms: a harness-controlled peer connects to a relay while the relay
@@ -825,6 +830,22 @@ func runC14() {
 					nbrs++
 				}
 			}
+			// reachedAt[seq][receiver]: the first instant anybody wrote that
+			// announcement to the receiver
+			reachedAt := map[uint64]map[string]time.Duration{}
+			for _, o := range *obs {
+				if o.Origin != od.ID || m.NodeByName(o.To) == nil {
+					continue
+				}
+				ra := reachedAt[o.AdvSeq]
+				if ra == nil {
+					ra = map[string]time.Duration{}
+					reachedAt[o.AdvSeq] = ra
+				}
+				if cur, ok := ra[o.To]; !ok || o.At < cur {
+					ra[o.To] = o.At
+				}
+			}
 			anns := map[uint64]*ann{}
 			var seqs []uint64
 			for _, o := range *obs {
@@ -850,22 +871,45 @@ func runC14() {
 					a.last = o.At
 				}
 			}
-			// per route: the start of the origin's most recent announcement of it
-			// that began in the stable phase and whose last own send is older
-			// than the margin
-			lastAnn := map[string]time.Duration{}
+			// per receiver and route: the start of the origin's most recent
+			// announcement of the route that began in the stable phase and was
+			// written to that receiver (by whoever forwards to it) at least
+			// `margin` ago: the receiver's own processing is all that is left.
+			// An announcement that nobody has written to a receiver long after
+			// it was sent did not reach it.
+			lastAnnFor := map[string]map[string]time.Duration{}
 			for _, sq := range seqs {
 				a := anns[sq]
-				if a.first < stableFrom || a.last > now-margin {
+				if a.first < stableFrom {
 					continue
 				}
 				if len(a.to) < nbrs {
 					simrt.Probe("c14_targeted_replay_of_own_routes")
 					continue
 				}
-				for _, k := range a.keys {
-					if cur, ok := lastAnn[k]; !ok || a.first > cur {
-						lastAnn[k] = a.first
+				for i, nd := range m.Nodes {
+					if i == j {
+						continue
+					}
+					at, reached := reachedAt[sq][nd.Name]
+					if !reached {
+						if a.last <= now-reachMargin {
+							simrt.Failf("announcement-did-not-reach", "an origin's announcement was never passed on to a connected agent", "%s: nobody has written announcement seq=%d of %s (sent at %v) to it by %v", nd.Name, sq, od.Name, a.first, now)
+						}
+						continue
+					}
+					if at > now-margin {
+						continue
+					}
+					la := lastAnnFor[nd.Name]
+					if la == nil {
+						la = map[string]time.Duration{}
+						lastAnnFor[nd.Name] = la
+					}
+					for _, k := range a.keys {
+						if cur, ok := la[k]; !ok || a.first > cur {
+							la[k] = a.first
+						}
 					}
 				}
 			}
@@ -903,7 +947,7 @@ func runC14() {
 					if !ok {
 						simrt.Failf("live-origin-route-lost", "route of a live connected announcing origin disappeared", "%s lost %s of %s at t=%v (stable since %v, ttl %v)", nd.Name, w, od.Name, now, stableFrom, ttl)
 					}
-					began, announced := lastAnn[w]
+					began, announced := lastAnnFor[nd.Name][w]
 					if !announced {
 						continue
 					}
@@ -1220,7 +1264,7 @@ func runC06() {
 		Settle(m)
 		if quiet {
 			// move away from the others' announcement instants
-			simrt.Sleep(time.Duration(20+simrt.Choose(60, "latephase")) * time.Second)
+			simrt.Sleep(time.Duration(20+simrt.Choose(40, "latephase")) * time.Second)
 		}
 		// what the late joiner's neighbours hold right before it connects
 		held := map[int]map[string]bool{}
@@ -1230,6 +1274,12 @@ func runC06() {
 			}
 			for _, r := range m.RoutesAt(i) {
 				if r.Origin == m.Nodes[lateIdx].ID {
+					continue
+				}
+				if r.Table == "agent" {
+					// the statement speaks of CIDR, domain and port-forward routes; an
+					// agent's presence entry is not part of the replay of its own
+					// routes (it returns with its next periodic announcement)
 					continue
 				}
 				oi := m.IndexOf(r.Origin)
@@ -1245,14 +1295,33 @@ func runC06() {
 			simrt.Failf("mesh-did-not-connect", "configured peers did not connect without faults", "edges=%v", m.Edges)
 		}
 		if quiet {
-			simrt.Sleep(10 * time.Second)
+			// the replays are processed within seconds; a starved or slow late
+			// joiner gets up to 90 s (the next periodic announcements are further away)
 			got := map[int]map[string]bool{}
-			for _, r := range m.RoutesAt(lateIdx) {
-				oi := m.IndexOf(r.Origin)
-				if got[oi] == nil {
-					got[oi] = map[string]bool{}
+			for waited := 0; waited < 90; waited += 5 {
+				simrt.Sleep(5 * time.Second)
+				got = map[int]map[string]bool{}
+				for _, r := range m.RoutesAt(lateIdx) {
+					oi := m.IndexOf(r.Origin)
+					if got[oi] == nil {
+						got[oi] = map[string]bool{}
+					}
+					got[oi][r.Table+"|"+r.Key] = true
 				}
-				got[oi][r.Table+"|"+r.Key] = true
+				complete := true
+				for oi := range m.Nodes {
+					for k := range held[oi] {
+						if !got[oi][k] {
+							complete = false
+						}
+					}
+				}
+				if complete {
+					break
+				}
+				if waited >= 5 {
+					simrt.Probe("c06_replay_took_longer_than_10s")
+				}
 			}
 			for oi := range m.Nodes {
 				if oi == lateIdx || len(held[oi]) == 0 {
